@@ -137,4 +137,7 @@ def run(ctx):
                        trusted=["TLC", "spec/QRSymbol.tla placement and block structure (ISO/IEC 18004)", "CRC-32 of texts computed by the harness"])
 
 
-replay = qrlib.replay
+def replay(ctx, path):
+    import json, dmlib
+    r = json.load(open(path))
+    return (dmlib if "size" in r["inputs"][0] else qrlib).replay(ctx, path)
